@@ -701,6 +701,9 @@ const deepPatience = 5 * time.Second
 
 var waits = []time.Duration{2 * time.Second, 4 * time.Second, 8 * time.Second, 8 * time.Second}
 
+// barrierLongWaitSpent: the long horizon of barrier is granted once per child process.
+var barrierLongWaitSpent bool
+
 // waitReload waits for heimdall's log statement about the reload attempt number n0. A missing
 // statement is answered by writing the same content again (a fresh event); only three unanswered
 // fresh events in a row, with the process alive, are reported.
@@ -1020,6 +1023,21 @@ func (e *env) barrier(res *inResult) bool {
 			time.Sleep(300 * time.Microsecond)
 		}
 		res.Nudges++
+	}
+	// A provider that is still busy with a large rule file on a heavily loaded machine is slow, not stopped: before the
+	// report, once per child process, the last write gets a much longer horizon (a stopped watcher never recovers, so a
+	// genuine violation is still reported, only later).
+	if !barrierLongWaitSpent {
+		barrierLongWaitSpent = true
+		deadline := time.Now().Add(90 * time.Second)
+		for time.Now().Before(deadline) {
+			if r := e.get(path, nil); r.err == nil && r.status == 200 {
+				res.Sentinels++
+				res.Notes = append(res.Notes, "barrier "+path+" was loaded only within the long horizon (slow machine)")
+				return true
+			}
+			time.Sleep(5 * time.Millisecond)
+		}
 	}
 	res.Problems = append(res.Problems, problem{Sig: "watcher-stopped:" + e.rulesKind, What: "the process is alive but four successive writes of a fresh valid rule file (" + path + ") were never loaded by the file_system provider"})
 	return false
